@@ -1406,6 +1406,13 @@ impl Fsm {
                 self.pseudo_root,
                 self.binding == BindingType::Early,
             );
+            if self.binding == BindingType::Late {
+                // The <scxml> element itself is active from the start (with an 'initial' attribute it is
+                // never part of an entry set), so its data is bound now.
+                datamodel.initializeDataModel(self, self.pseudo_root, true);
+                let root = self.pseudo_root;
+                self.get_state_by_id_mut(root).isFirstEntry = false;
+            }
         }
         self.executeGlobalScriptElement(datamodel);
 
